@@ -1,6 +1,8 @@
 package main
 
 import (
+	"crypto/sha256"
+	"encoding/hex"
 	"io"
 	"bufio"
 	"bytes"
@@ -163,7 +165,13 @@ func raceChild(args []string) {
 			sizes := []int{40, 3000, 70, 5000, 16384, 9, 2048, 4097}
 			for i, sz := range sizes {
 				kind := []string{"resource", "http"}[i%2]
-				big = append(big, recordBytes(kind, sz)...)
+				rec := recordBytes(kind, sz)
+				// a block digest in an algorithm that is not the configured default (sha256 instead of sha1)
+				if k := bytes.Index(rec, []byte("\r\n\r\n")); k > 0 && len(rec) >= k+8 {
+					sum := sha256.Sum256(rec[k+4 : len(rec)-4])
+					rec = bytes.Replace(rec, []byte("WARC-Date:"), []byte("WARC-Block-Digest: sha256:"+hex.EncodeToString(sum[:])+"\r\nWARC-Date:"), 1)
+				}
+				big = append(big, rec...)
 			}
 			hfile := filepath.Join(dir, "handoff.warc")
 			_ = os.WriteFile(hfile, big, 0o644)
@@ -201,6 +209,10 @@ func raceChild(args []string) {
 								}
 								if got != it.want {
 									fmt.Fprintf(os.Stderr, "HANDOFF-BAD block of %d bytes, want %d\n", got, it.want)
+								}
+								// the owner derives a revisit record from its record (http records only; others are refused)
+								if rv, err := it.rec.ToRevisitRecord(&gowarc.RevisitRef{Profile: gowarc.ProfileIdenticalPayloadDigestV1_1, TargetRecordId: "<urn:uuid:aaaaaaaa-0000-4000-8000-00000000beef>"}); err == nil && rv != nil {
+									_ = rv.Close()
 								}
 								_ = it.rec.Close()
 							}
